@@ -134,13 +134,17 @@ REAL_CASES = [  # (shape, value, conforms?)  — concrete differential against t
     # falsy return values are values like any other: checked when they do not conform, kept when they do
     ('int', '', False), ('str', 0, False), ('str', False, False), ('dict[str,int]', [], False), ('int|None', '', False),
     ('BaseModel', [], False), ('int', 0, True), ('str', '', True), ('list[int]', [], True), ('dict[str,int]', {}, True),
+    # values that pydantic coerces into the declared type and that compare equal to their coerced form: what is stored must be the
+    # conforming value, not the raw one (4th element: repr of the expected stored value)
+    ('int', 9.0, True, '9'), ('list[int]', [1.0, 2.0], True, '[1, 2]'), ('dict[str,int]', {'a': 1.0}, True, "{'a': 1}"),
+    ('int|None', 3.0, True, '3'), ('Annotated[int]', 5.0, True, '5'),
 ]
 
 
 def t_update_real(ctx):
     """Concrete cases through the real pydantic validator (no stub): checks the stub's contract and the update() glue."""
     i = ctx.cfg['case']
-    shape, value, conforms = REAL_CASES[i]
+    shape, value, conforms, *exact = REAL_CASES[i]
     models = env.models
     r = models.EventResult(event_id='00000000-0000-0000-0000-000000000001', handler_id='1.1', handler_name='h',
                            eventbus_id='1', eventbus_name='B', result_type=SHAPES[shape])
@@ -156,6 +160,9 @@ def t_update_real(ctx):
         if conforms:
             ctx.check('C12.typed_ok', r.status == 'completed' and r.error is None and r.result is not None, shape=shape, value=repr(value),
                       status=r.status, err=repr(r.error)[:200])
+            if exact:
+                ctx.check('C12.typed_ok', repr(r.result) == exact[0], shape=shape, value=repr(value), stored=repr(r.result), expected=exact[0],
+                          why='the completed result does not hold the value as validated against the declared type')
         else:
             ctx.check('C12.typed_bad', r.status == 'error' and r.result is None, shape=shape, value=repr(value), status=r.status)
 
